@@ -1039,7 +1039,11 @@ impl GenState<'_> {
                     7 => Pos::OrderBy,
                     _ => Pos::JoinOn(self.pick_table(t, &[h], who, Some(true))),
                 };
-                let sub = self.gen_sub(t, &[h], who);
+                let not = match pos {
+                    Pos::JoinOn(j) => vec![h, j],
+                    _ => vec![h],
+                };
+                let sub = self.gen_sub(t, &not, who);
                 Stmt::Host { h, pos, sub }
             }
             8 => {
@@ -1246,15 +1250,15 @@ impl Check for C26 {
     }
     fn cases(&self, tier: Tier) -> u64 {
         match tier {
-            Tier::Quick => 6_000,
-            Tier::Thorough => 150_000,
+            Tier::Quick => 20_000,
+            Tier::Thorough => 500_000,
         }
     }
     fn tape_len(&self, _t: Tier) -> usize {
         600
     }
     fn floors(&self) -> Vec<(&'static str, f64)> {
-        vec![("allowed_ok", 0.30), ("denied_err", 0.30), ("mixed_after_revoke", 0.10)]
+        vec![("allowed_ok", 0.15), ("denied_err", 0.40), ("mixed_after_revoke", 0.15)]
     }
 
     fn build(&self, t: &mut Tape, cfg: &GenCfg) -> Case {
